@@ -1176,7 +1176,9 @@ def _refs(d):
     if d["k"] == "typedef":
         return {d["type"]}
     if d["k"] == "union":
-        return set(a["type"] for a in d["arms"])
+        return set(a["type"] for a in d["arms"]) | set(a["dtext"] for a in d["arms"] if a.get("dtext"))
+    if d["k"] == "enum":
+        return set(m[2] for m in d["members"] if len(m) > 2)
     if d["k"] == "struct":
         out = set(m["type"] for m in d["members"])
         out |= set(m["ntext"] for m in d["members"] if m.get("ntext"))
@@ -1216,7 +1218,7 @@ def simplify_plan(plan, same, max_exec=300):
             d = defs[i]
             if d["name"] == best["msg_name"]:
                 continue
-            names = {d["name"]} | set(n for n, _ in d.get("members", [])) if d["k"] == "enum" else {d["name"]}
+            names = {d["name"]} | set(m[0] for m in d.get("members", [])) if d["k"] == "enum" else {d["name"]}
             if any(names & _refs(o) for o in defs if o is not d):
                 continue
             cand = copy.deepcopy(best)
